@@ -24,6 +24,8 @@ impl ThreadPark {
     pub fn park_timeout(&self, dur: Option<Duration>) -> Result<(), ParkError> {
         let mut result = Ok(());
         let mut guard = self.lock.lock();
+        #[cfg(may_verif)]
+        may_queue::verif::point(may_queue::verif::site::THREADPARK_BEFORE_WAIT, self as *const _ as usize);
         while *guard == 0 && result.is_ok() {
             match dur {
                 None => self.cvar.wait(&mut guard),
@@ -42,6 +44,8 @@ impl ThreadPark {
 
     pub fn unpark(&self) {
         let mut guard = self.lock.lock();
+        #[cfg(may_verif)]
+        may_queue::verif::point(may_queue::verif::site::THREADPARK_UNPARK_SWAPPED, self as *const _ as usize);
         if *guard == 0 {
             *guard = 1;
             self.cvar.notify_one();
@@ -172,6 +176,8 @@ impl SyncBlocker {
     #[inline]
     pub fn unpark(&self) {
         self.blocker.unpark();
+        #[cfg(may_verif)]
+        may_queue::verif::point(may_queue::verif::site::SYNCBLOCKER_UNPARK_MID, self as *const _ as usize);
         self.unparked.store(true, Ordering::Release);
     }
 }
